@@ -184,7 +184,8 @@ Lemma c06_impl_header a h t :
   app_param_toks (i_gen (c06_impl a h t)) = expected_impl_t false /\
   first_where_toks (i_gen (c06_impl a h t)) = c06_bound a (has_async (map snd (trait_sigs t))) (t_name t) (t_gen t) /\
   i_trait (c06_impl a h t) = Some ([TId (t_name t)] ++ trait_args (t_gen t)) /\
-  p_items (g_params (i_gen (c06_impl a h t))) = trait_impl_params (p_items (g_params (t_gen t))).
+  p_items (g_params (i_gen (c06_impl a h t))) = trait_impl_params (p_items (g_params (t_gen t))) /\
+  tl (where_items (i_gen (c06_impl a h t))) = where_items (t_gen t).
 Proof.
   repeat split. unfold app_param_toks, c06_impl. cbn [i_gen g_params p_items p_of_list].
   fold nonlife. rewrite filter_nonlife_trait_impl_params. reflexivity.
@@ -204,8 +205,8 @@ Proof.
   unfold view_C06_gen, trait_attr_of. cbn [x_input x_attr x_variant]. rewrite Hp, Ha. cbn [ta_impl_trait].
   rewrite Hw, eqb_reflx. cbn [decided v_app v_det v_holds]. split; [reflexivity|]. split; [reflexivity|].
   fold (eff_trait_attr v a0).
-  destruct (c06_impl_header (eff_trait_attr v a0) h t) as (E1 & E2 & E3 & E4 & E5).
-  rewrite E1, E2, E3, E4, E5, c06_impl_only, c06_impl_fns, (c06_methods_ok _ _ _ Fp), !toks_eqb_refl, toks_list_eqb_refl. reflexivity.
+  destruct (c06_impl_header (eff_trait_attr v a0) h t) as (E1 & E2 & E3 & E4 & E5 & E6).
+  rewrite E1, E2, E3, E4, E5, E6, c06_impl_only, c06_impl_fns, (c06_methods_ok _ _ _ Fp), !toks_eqb_refl, !toks_list_eqb_refl. reflexivity.
 Qed.
 
 Lemma c06_gen_view w v attr i items :
